@@ -10,7 +10,7 @@
 * `mergeRound`, `bpeMergeFuel`, `bpeMerge` — one iteration / the whole `loop { … }` of `bpe_merge`.
 * `MergeMap`, `lookup` — `FxHashMap<(TokenId,TokenId),(Rank,TokenId)>` as an association list,
   most recent `insert` first (so a later duplicate key overrides an earlier one).
-* `buildMergeMap` — `build_merge_map`; `buildVocabAuto` — `build_vocab` (no vocabulary supplied).
+* `buildMergeMap` — `build_merge_map` (`build_vocab`/`encode_piece` are in `Model/BpeEncode.lean`).
 * `refRank`, `refBestBy`, `refStepBy`, `refBpe` — the string-level reference BPE procedure.
 -/
 namespace RtenVerif.Bpe
@@ -167,7 +167,52 @@ def refBpeLast {σ : Type} [DecidableEq σ] (cat : σ → σ → σ) (merges : L
     (pieces : List σ) : List σ :=
   refBpeBy cat (refRankLast merges) pieces
 
-/-! ## Concrete instantiation used by the driver (`σ = String`) -/
+/-! ## Functional round model and the seeded "first occurrence only" variant -/
+
+/-- One round, functionally: replace all non-overlapping occurrences of the chosen pair. -/
+def mergeRoundFun {α : Type} [DecidableEq α] (m : MergeMap α) (toks : List α) : Option (List α) :=
+  (findMinPair m toks).map (fun c => replacePairs c.1.1 c.1.2 c.2.2 toks)
+
+def bpeMergeFunFuel {α : Type} [DecidableEq α] (m : MergeMap α) : Nat → List α → List α
+  | 0, toks => toks
+  | n + 1, toks =>
+    match mergeRoundFun m toks with
+    | none => toks
+    | some t' => bpeMergeFunFuel m n t'
+
+/-- The purely functional model of `bpe_merge` (no index loop, no `Vec::remove`). -/
+def bpeMergeFun {α : Type} [DecidableEq α] (m : MergeMap α) (toks : List α) : List α :=
+  bpeMergeFunFuel m toks.length toks
+
+/-- Replace only the left-most occurrence of the pair. -/
+def replaceFirst {α : Type} [DecidableEq α] (first second merged : α) : List α → List α
+  | [] => []
+  | x :: t =>
+    match t with
+    | [] => [x]
+    | y :: rest =>
+      if x = first ∧ y = second then merged :: rest
+      else x :: replaceFirst first second merged t
+
+/-- A *different* algorithm: per round only the left-most occurrence of the lowest-ranked pair is
+merged, then the pair is selected again (what a "we already know the position" optimisation
+does). Used only to show that it is not what `bpe_merge` / the reference compute. -/
+def bpeMergeFirstOnlyFuel {α : Type} [DecidableEq α] (m : MergeMap α) : Nat → List α → List α
+  | 0, toks => toks
+  | n + 1, toks =>
+    match findMinPair m toks with
+    | none => toks
+    | some c => bpeMergeFirstOnlyFuel m n (replaceFirst c.1.1 c.1.2 c.2.2 toks)
+
+def bpeMergeFirstOnly {α : Type} [DecidableEq α] (m : MergeMap α) (toks : List α) : List α :=
+  bpeMergeFirstOnlyFuel m toks.length toks
+
+/-- Rank / merged id of a pair as functions, read off an id-level merge map. -/
+def rankOf {α : Type} [DecidableEq α] (m : MergeMap α) (p : α × α) : Option Nat :=
+  (lookup m p).map (·.1)
+
+def mergedOf {α : Type} [DecidableEq α] (m : MergeMap α) (a b : α) : α :=
+  ((lookup m (a, b)).map (·.2)).getD a
 
 /-- A vocabulary `FxHashMap<String, TokenId>` as an association list, most recent insert first. -/
 abbrev Vocab := List (String × Nat)
@@ -178,42 +223,5 @@ def vocabGet : Vocab → String → Option Nat
 
 def vDom (vc : Vocab) (s : String) : Bool := (vocabGet vc s).isSome
 def vId (vc : Vocab) (s : String) : Nat := (vocabGet vc s).getD 0
-
-/-- `byte_to_rank` restricted to printable ASCII (`'!'..='~'` are the first 94 printable bytes). -/
-def asciiRank (c : Char) : Option Nat :=
-  if 33 ≤ c.toNat ∧ c.toNat ≤ 126 then some (c.toNat - 33) else none
-
-/-- `build_vocab` restricted to the printable-ASCII single-byte tokens in `alphabet` (the other
-byte tokens exist in the real vocabulary but are never used by the requests):
-bytes → rank, (with an end-of-word suffix) byte+suffix → 256+rank, then merge entry `i` →
-`start + i` where `start` is 256 or 512. Later inserts override (`HashMap::insert/extend`). -/
-def buildVocabAuto (alphabet : List Char) (merges : List (String × String))
-    (eow : Option String) : Vocab :=
-  let base : Vocab := alphabet.filterMap (fun c => (asciiRank c).map (fun r => (String.singleton c, r)))
-  let withEow : Vocab := match eow with
-    | none => base
-    | some sfx =>
-      (alphabet.filterMap (fun c => (asciiRank c).map (fun r => (String.singleton c ++ sfx, 256 + r)))).reverse ++ base
-  let start := match eow with | none => 256 | some _ => 512
-  let rec go (i : Nat) (ms : List (String × String)) (acc : Vocab) : Vocab :=
-    match ms with
-    | [] => acc
-    | (a, b) :: rest => go (i + 1) rest ((a ++ b, start + i) :: acc)
-  go 0 merges withEow
-
-/-- `Bpe::encode_piece` (without `ignore_merges`): one token per byte; with an end-of-word suffix
-the last byte's token is replaced by the id of `"{byte}{suffix}"` looked up in the vocabulary
-(`eow_byte_to_token_id`, falling back to `id(byte) + 256`, the layout of `build_vocab`); then
-`bpe_merge`. `none` = a byte outside the modelled alphabet. -/
-def encodePiece (vc : Vocab) (m : MergeMap Nat) (eow : Option String) (piece : String) :
-    Option (List Nat) :=
-  match piece.toList.mapM (fun c => vocabGet vc (String.singleton c)) with
-  | none => none
-  | some ids =>
-    let ids := match eow, piece.toList.getLast?, ids.reverse with
-      | some sfx, some c, last :: r =>
-        ((vocabGet vc (String.singleton c ++ sfx)).getD ((last + 256) % 4294967296) :: r).reverse
-      | _, _, _ => ids
-    some (bpeMerge m ids)
 
 end RtenVerif.Bpe
